@@ -1,0 +1,59 @@
+//go:build verif
+
+package writecache
+
+// Machine-checked contracts (govc, see /verif/DESIGN.md). Comment-only file.
+
+// ---- C17 (size accounting): representation invariant R of `counters`:
+//     size == sum of objMap's entries.
+// Written in delta form so that no sum over a map is needed: an operation that changes
+// the entry of one address from e0 to e1 must change size by e1 - e0 (an absent entry
+// counts as 0). With that, R is preserved by every operation from every state that
+// satisfies it, including re-adding an address that is already present. uint64
+// arithmetic is exact 64-bit vector arithmetic (wrap-around is modelled, not assumed away).
+
+//@ func (*counters).Add
+//@   property C17
+//@   mode bv
+//@   valid x != nil && x.objMap != nil
+//@   ensures [size_changes_by_entry_delta] x.size == old(x.size) - old(x.objMap[addr]) + size
+//@   ensures [entry_recorded] has(x.objMap, addr) && x.objMap[addr] == size
+
+//@ func (*counters).Delete
+//@   property C17
+//@   mode bv
+//@   valid x != nil && x.objMap != nil
+//@   ensures [size_changes_by_entry_delta] x.size == old(x.size) - old(x.objMap[addr])
+//@   ensures [entry_removed] !has(x.objMap, addr)
+
+//@ func (*counters).Size
+//@   property C17
+//@   mode bv
+//@   valid x != nil
+//@   ensures [reports_tracked_size] result == x.size
+
+//@ func (*counters).HasAddress
+//@   property C17
+//@   mode bv
+//@   valid x != nil && x.objMap != nil
+//@   ensures [reports_membership] result == has(x.objMap, addr)
+
+// The cache accounts an object only after the file tree really stored / removed it.
+//@ ghost pred fsTreeStored() bool
+//@ ghost pred fsTreeRemoved() bool
+//@ callrule fstree_put_fact in (*cache).put
+//@   property C17
+//@   callee (*fstree.FSTree).Put
+//@   defines err == nil ==> fsTreeStored()
+//@ callrule account_after_store in (*cache).put
+//@   property C17
+//@   callee (*writecache.counters).Add
+//@   requires [stored_before_accounted] fsTreeStored()
+//@ callrule fstree_delete_fact in (*cache).delete
+//@   property C17
+//@   callee (*fstree.FSTree).Delete
+//@   defines err == nil ==> fsTreeRemoved()
+//@ callrule unaccount_after_remove in (*cache).delete
+//@   property C17
+//@   callee (*writecache.counters).Delete
+//@   requires [removed_before_unaccounted] fsTreeRemoved()
